@@ -73,6 +73,11 @@ func registerMisc(e *Engine) {
 		in.now = in.ctx.BVAdd(in.clockNow(), a[0].(*smt.Term))
 		return TupleV{}
 	}
+	// zerolog is opaque, but a context handed to it must come back: it still
+	// carries the request's own values (cancellation, user info)
+	for _, n := range []string{"(github.com/rs/zerolog.Logger).WithContext", "(*github.com/rs/zerolog.Logger).WithContext"} {
+		I[n] = func(in *Interp, fn *ssa.Function, a []Value) Value { return a[1] }
+	}
 	// vhClockConcrete(): the clock reads a fixed instant from here on (for code
 	// that only formats the time into output the property does not look at;
 	// calendar arithmetic on a symbolic instant is division-heavy)
